@@ -202,6 +202,29 @@ def st_random(rng, allow_touch=True, allow_throw=True):
             "ops": gen_ops(rng, len(roots), fin, rng.randint(2, 12))}
 
 
+def st_machine(rng):
+    """histories both models can run (plain roots; first / rest / next / seq / bounded iteration): the
+    small-step machine with one thread must agree with the big-step model inside Coq"""
+    n = rng.randint(1, 6)
+    cells = [gen_script(rng, i, n) for i in range(n)]
+    roots = [["o", L(rng.randrange(n))] for _ in range(rng.randint(1, 2))]
+    nregs, ops = len(roots), []
+    for _ in range(rng.randint(2, 10)):
+        r = rng.randrange(nregs)
+        x = rng.random()
+        if x < 0.3:
+            ops.append(["first", r])
+        elif x < 0.5:
+            ops.append(["rest", r]); nregs += 1
+        elif x < 0.65:
+            ops.append(["next", r]); nregs += 1
+        elif x < 0.8:
+            ops.append(["seq", r]); nregs += 1
+        else:
+            ops.append(["iter", r, rng.randint(0, 5)])
+    return {"k": "st", "cells": cells, "iters": [], "nev": 1, "roots": roots, "ops": ops}
+
+
 def st_iter(rng):
     """seq over a scripted Python iterator / iterator-seq of a SeqIterator / concat of them"""
     vals = [rng.randint(0, 9) for _ in range(rng.randint(0, 5))]
@@ -401,6 +424,8 @@ def cases(tier, rng):
         yield st_pipeline(rng)
     for _ in range(n * 3 // 8):
         yield st_iter(rng)
+    for _ in range(n // 2):
+        yield st_machine(rng)
 
 
 # ---------------------------------------------------------------------------------------------
